@@ -310,6 +310,38 @@ func c12Unit(w *core.WorkerCtx, rng *rand.Rand, rounds int) {
 		if i%3 == 2 {
 			kind = "trx"
 		}
+		if class == "honest-signature-for-another-item" {
+			// honest traffic first: an earlier item reaches the hub carrying genuine entries of the two peers (the harness
+			// holds their keys; in a real network these are the entries the peers attach when they forward). The hub
+			// verifies them - rightly - for that item. They are what the adversary replays on the next item.
+			net.ResetExecution()
+			if wa, err := c11Originate(net, origin, "vrx", 900000+i); err == nil {
+				net.WaitStable(6)
+				for _, m := range net.Pending() {
+					if m.To == adv {
+						net.Deliver(m)
+						var msg protobufcompiled.VrxMsgGossip
+						if proto.Unmarshal(m.Bytes, &msg) == nil {
+							var es []*protobufcompiled.Gossiper
+							for _, v := range []int{1, 2} {
+								va := net.Nodes[v].Actor
+								d, sg := va.W.Sign(append([]byte(va.Addr), wa.hash[:]...))
+								es = append(es, &protobufcompiled.Gossiper{Address: va.Addr, Digest: d[:], Signature: sg})
+							}
+							hv.add(es)
+							msg.Gossipers = append(msg.Gossipers, es...)
+							wb, _ := proto.Marshal(&msg)
+							net.Inject(adv, hub, "vrx", wa.hash, wb, false)
+						}
+					}
+				}
+				xw := &c11Exec{w: w, net: net, t: t, rng: rng, policy: "fifo"}
+				xw.drive()
+				// the two peers were (validly) listed for that item and never got it: hand it to them now
+				c11Heal(net, adv)
+				r.Count("c12_unit_warmups", 1)
+			}
+		}
 		net.ResetExecution()
 		it, err := c11Originate(net, origin, kind, i+1)
 		if err != nil {
@@ -628,13 +660,13 @@ func c12Joining(w *core.WorkerCtx, rng *rand.Rand, rounds int) {
 }
 
 func c12Worker(w *core.WorkerCtx) {
-	rng := core.Rand(w.Seed, "C12", w.Batch)
-	c12Unit(w, rng, w.Pick(20, 400))
+	c12Unit(w, core.Rand(w.Seed, "C12unit", w.Batch), w.Pick(20, 400))
 	if w.Batch%2 == 0 {
-		c12PullHarvest(w, rng, w.Pick(4, 40))
+		c12PullHarvest(w, core.Rand(w.Seed, "C12pull", w.Batch), w.Pick(4, 40))
 	} else {
-		c12Joining(w, rng, w.Pick(3, 30))
+		c12Joining(w, core.Rand(w.Seed, "C12join", w.Batch), w.Pick(3, 30))
 	}
+	rng := core.Rand(w.Seed, "C12", w.Batch)
 	// network level: adversary at every position of small graphs (the origin elsewhere)
 	topos := []topo{
 		mkTopo("kite", 4, [][2]int{{0, 1}, {0, 3}, {3, 1}, {1, 2}}), // origin 0, adversary 3 next to origin and relay 1; node 2 behind relay 1
